@@ -145,7 +145,40 @@ def prepare(d, seed, names):
             u.query_qualities = s.query_qualities
             o.write(u)
     files["A_unaligned"] = ub
+    files["L"] = linked_world(os.path.join(d, "L"), seed + 3)
+    # the same VCF with four predefined INFO keys used but not declared (the header is completed on output)
+    und = os.path.join(A, "undeclared.vcf")
+    with open(pa["vcf"]) as f, open(und, "w") as o:
+        for line in f:
+            t = line.rstrip("\n").split("\t")
+            if not line.startswith("#") and len(t) > 8:
+                t[7] = "AC=1;AN=2;SVLEN=1;SVTYPE=SNV"
+            o.write("\t".join(t) + "\n")
+    files["A_undeclared"] = und
     return files
+
+
+def linked_world(L, seed):
+    """haplotag input with barcoded reads: per barcode one read on haplotype 1 of the first phase set and one on
+    haplotype 2 of the second, so that the read cloud's best score is shared by two phase sets"""
+    os.makedirs(L)
+    seq = synth.make_reference(seed, 400)
+    pos = [60, 100, 200, 240]
+    variants = [synth.make_variant(seq, q, "SNV") for q in pos]
+    vcf = synth.VcfText(["S1"], contigs=[("chrL", len(seq))], formats=["GT", "PS"])
+    for i, v in enumerate(variants):
+        vcf.add("chrL", v.pos, v.ref, v.alts, [{"GT": "0|1", "PS": "61" if i < 2 else "201"}], fmt=["GT", "PS"])
+    vp = bgzip(vcf.write(os.path.join(L, "phased.vcf")))
+    fasta = synth.write_fasta(os.path.join(L, "ref.fa"), [("chrL", seq)])
+    alns = []
+    for b in range(8):
+        q1, c1 = synth.hap_read(seq, variants, [0, 0, 0, 0], 40 + b, 120 + b)
+        q2, c2 = synth.hap_read(seq, variants, [1, 1, 1, 1], 180 + b, 260 + b)
+        alns.append({"name": f"m{b}_left", "chrom": "chrL", "start": 40 + b, "cigar": c1, "seq": q1, "rg": "rg1", "tags": [("BX", f"bc{b}", "Z")]})
+        alns.append({"name": f"m{b}_right", "chrom": "chrL", "start": 180 + b, "cigar": c2, "seq": q2, "rg": "rg1", "tags": [("BX", f"bc{b}", "Z")]})
+    bam = os.path.join(L, "linked.bam")
+    synth.write_bam(bam, [("chrL", len(seq))], alns, read_groups=[{"ID": "rg1", "SM": "S1"}])
+    return {"vcf": vp, "fasta": fasta, "bam": bam}
 
 
 def scenarios(files, names):
@@ -156,6 +189,8 @@ def scenarios(files, names):
     sc = [
         {"id": "phase", "cmd": "phase", "names": names, "chroms": chroms, "args": {"inputs": [a["bam"]], "vcf": a["vcf"], "fasta": a["fasta"]}},
         {"id": "phase-HP", "cmd": "phase", "names": names, "chroms": chroms, "args": {"inputs": [a["bam"]], "vcf": a["vcf"], "fasta": a["fasta"], "kw": {"tag": "HP"}}},
+        {"id": "phase-undeclared-info", "cmd": "phase", "names": ["AC", "AN", "SVLEN", "SVTYPE"], "chroms": chroms, "args": {"inputs": [a["bam"]], "vcf": files["A_undeclared"], "fasta": a["fasta"]}},
+        {"id": "genotype-undeclared-info", "cmd": "genotype", "names": ["AC", "AN", "SVLEN", "SVTYPE"], "chroms": chroms, "args": {"inputs": [a["bam"]], "vcf": files["A_undeclared"], "fasta": a["fasta"]}},
         {"id": "phase-ped", "cmd": "phase", "names": files["F_names"], "args": {"inputs": [f["bam"]], "vcf": f["vcf"], "fasta": f["fasta"], "ped": files["F_ped"]}},
         {"id": "phase-use-ped-samples", "cmd": "phase", "names": ["dad", "mom", "kid"], "args": {"inputs": [f["bam"]], "vcf": f["vcf"], "fasta": f["fasta"], "ped": files["F_ped"], "kw": {"use_ped_samples": True}}},
         {"id": "genotype", "cmd": "genotype", "names": names, "chroms": chroms, "args": {"inputs": [a["bam"]], "vcf": a["vcf"], "fasta": a["fasta"]}},
@@ -163,6 +198,8 @@ def scenarios(files, names):
         {"id": "genotype-use-ped-samples", "cmd": "genotype", "names": ["dad", "mom", "kid"], "args": {"inputs": [f["bam"]], "vcf": f["vcf"], "fasta": f["fasta"], "ped": files["F_ped"], "kw": {"use_ped_samples": True}}},
         {"id": "polyphase", "cmd": "polyphase", "names": names, "args": {"inputs": [p["bam"]], "vcf": p["vcf"], "fasta": p["fasta"], "ploidy": 3}},
         {"id": "haplotag", "cmd": "haplotag", "names": names, "args": {"vcf": files["A_phased_gz"], "bam": a["bam"], "fasta": a["fasta"]}},
+        {"id": "haplotag-regions", "cmd": "haplotag", "names": names, "chroms": chroms, "args": {"vcf": files["A_phased_gz"], "bam": a["bam"], "fasta": a["fasta"], "kw": {"regions": ["chr2", "chr1:1-150", "chr1:150-400"]}}},
+        {"id": "haplotag-linked", "cmd": "haplotag", "names": names, "args": {"vcf": files["L"]["vcf"], "bam": files["L"]["bam"], "fasta": files["L"]["fasta"]}},
         {"id": "haplotagphase", "cmd": "haplotagphase", "names": names, "args": {"vcf": files["A_unphased_gz"], "bam": files["A_tagged"], "fasta": a["fasta"]}},
         {"id": "compare-multiway", "cmd": "compare", "names": names, "args": {"vcfs": files["cmp"], "kw": {"ignore_sample_name": True}}},
         {"id": "stats", "cmd": "stats", "names": names, "args": {"vcf": files["A_phased"]}},
